@@ -477,11 +477,11 @@ theorem watchGroups_spec (w : PWorld) (t : Oid) (m : Name) (attrib : Option Name
 /-! ### scope, invariant, rebuild -/
 
 /-- scope of the C07 theorems: `t` is the only object whose class has dependent methods; that class
-has the single method `m` with the path specs `specs` (any number, through the same or different
-sub-objects), whose leaves are ordinary integer-valued Parameters; every object has the parameters
+has the single method `m` (whose body may raise on any of its invocations) with the path specs
+`specs` (any number, through the same or different sub-objects), whose leaves are ordinary integer-valued Parameters; every object has the parameters
 the specs name; path parameters hold `None` or an existing object -/
 structure Scope (w : PWorld) (t : Oid) (m : Name) (specs : List PathSpec) : Prop where
-  tcls : ∃ ct, classOf w t = some ct ∧ ct.methods = [⟨m, specs⟩]
+  tcls : ∃ ct rs, classOf w t = some ct ∧ ct.methods = [⟨m, specs, rs⟩]
   others : ∀ o c, o ≠ t → classOf w o = some c → c.methods = []
   nonempty : specs ≠ []
   leaf : ∀ s ∈ specs, s.leaf ≠ "param"
@@ -542,7 +542,7 @@ theorem rebuild_gen (w : PWorld) (t : Oid) (m : Name) (specs : List PathSpec) (a
     (hattr : attrib = none ∨ ∃ r, attrib = some r ∧ ∃ s ∈ specs, s.root = r)
     (hinit : init = true → w.watchers = [] ∧ w.dyn = [] ∧ attrib = none) :
     ∃ w', updateDeps w t attrib init = .ok w' ∧ SameGraph w w' ∧ w'.log = w.log ∧ Installed w' t m specs := by
-  obtain ⟨ct, hct, hm⟩ := hs.tcls
+  obtain ⟨ct, rs, hct, hm⟩ := hs.tcls
   have htl : t < w.objs.length := classOf_lt hct
   have hw1 : ({ w with watchers := w.watchers.filter (fun x => !((dynGet w.dyn (t, m)).contains x.id)),
                        dyn := w.dyn.filter (fun e => e.1 ≠ (t, m)) } : PWorld) =
